@@ -502,6 +502,9 @@ func c12(tier string) int {
 	run.Set("transitions", trans)
 	run.Set("traces_validated_against_impl", trans)
 	run.Set("evaluations", trans+il+idn)
+	// Concurrent leg: updates of DIFFERENT logs overlapping at storage-operation
+	// granularity (first use / growth of both) - neither may undo the other.
+	c05Concurrent(run, "C12", tier)
 	run.Set("exhaustive", true)
 	run.Set("rule", fmt.Sprintf("product explicit-state BFS over 2 logs that share a signing key under different origins (sizes 0..%d, fork at 0, both stores) and 3 logs: for every product state and every request naming log X (reduced single-log alphabet + forged + every other log's checkpoints submitted under X's ID): all other components byte-identical before/after, and X's answer/successor equal to those of a one-log witness replaying only X's requests (differential oracle); plus all interleavings of independently chosen per-log histories (4 histories per log; 2 logs length 3, 3 logs length 2; thorough also 4 logs length 2 and 5 logs length 1) compared with the isolated runs; plus identity: for 15 origins the ID used by config.NewLog, the witness map, log.ID, the bastion endpoint (observed at a recording witness), the distributor (asked ID and PUT path) and the HTTP route agree, and all 84 configurations of <= 3 entries over 2 origins x 2 keys are refused iff two entries share an origin. distinct_nontrivial = distinct product states + identity cases", maxN))
 	return run.Finish()
